@@ -30,14 +30,14 @@ enum VOp {
     V_ASSIGN_SCALAR = 0, V_ASSIGN_STRING, V_ASSIGN_CONTAINER, V_ASSIGN_VALUE_COPY, V_ASSIGN_VALUE_MOVE, V_APPEND_SCALAR,
     V_APPEND_STRING, V_APPEND_CONTAINER, V_APPEND_VALUE_COPY, V_APPEND_VALUE_MOVE, V_SUBSCRIPT_KEY, V_SUBSCRIPT_INDEX,
     V_GET_KEY, V_INSERT, V_MERGE_COPY, V_MERGE_MOVE, V_REMOVE_KEY, V_REMOVE_INDEX, V_RESET, V_COMPRESS, V_ROOT_COPY_CTOR,
-    V_ROOT_MOVE_CTOR, V_ROOT_CTOR, V_SET_POINTER, V_ADD_POINTER, V_ASSIGN_TYPE, V_SELF_ASSIGN, V_ASSIGN_OWN_TEXT, V_CHECKPOINT, V_COUNT
+    V_ROOT_MOVE_CTOR, V_ROOT_CTOR, V_SET_POINTER, V_ADD_POINTER, V_ASSIGN_TYPE, V_SELF_ASSIGN, V_ASSIGN_OWN_TEXT, V_POINTEE_UPDATE, V_CHECKPOINT, V_COUNT
 };
 static const char *v_op_name[] = {"assign-scalar", "assign-string", "assign-container", "assign-value-copy",
                                   "assign-value-move", "append-scalar", "append-string", "append-container",
                                   "append-value-copy", "append-value-move", "subscript-key", "subscript-index",
                                   "get-key", "insert", "merge-copy", "merge-move", "remove-key", "remove-index", "reset",
                                   "compress", "root-copy-ctor", "root-move-ctor", "root-ctor", "set-pointer",
-                                  "add-pointer", "assign-type", "self-assign", "assign-own-text", "checkpoint"};
+                                  "add-pointer", "assign-type", "self-assign", "assign-own-text", "pointee-update", "checkpoint"};
 
 static const double nice_doubles[] = {0.0, -0.0, 1.0, -1.0, 0.5, -2.25, 1.0 / 3.0, 0.1, 0.3, 123456.789, 1e15, 9007199254740993.0,
                                       1e300, -1e-300, DBL_MAX, DBL_MIN, 4.9406564584124654e-324, 3.141592653589793, 2.5e-5, 1e21, 1e-7};
@@ -109,9 +109,12 @@ struct ValW {
         pmodel[0] = Node::mk(Node::Object);
         pmodel[0].get_or_add(ascii("p")) = Node::mku(1);
         pmodel[0].get_or_add(ascii("q")) = Node::mks(ascii("s"));
+        pmodel[0].get_or_add(ascii("r")) = Node::mkd(0.1 + 0.2); // needs all 17 digits
         pmodel[1]                        = Node::mk(Node::Array);
         pmodel[1].items.push_back(Node::mku(1));
         pmodel[1].items.push_back(Node::mks(ascii("x")));
+        pmodel[1].items.push_back(Node::mkd(1.0 / 3.0));
+        pmodel[1].items.push_back(Node::mkd(pattern_double(12345)));
         pmodel[2] = Node::mks(ascii("ptr"));
         pmodel[3] = Node::mku(42);
         for (int i = 0; i < R; i++) {
@@ -353,7 +356,19 @@ struct ValW {
             cx.fail("model", "kind", path + ": Type() is " + std::to_string((int)v->Type()) + ", model kind " + std::to_string((int)n.kind));
             return;
         }
-        const Node &t = (n.kind == Node::Ptr) ? pmodel[(size_t)n.ptr] : n; // what the accessors look through to
+        // what the accessors look through to. A pointer may point at a value that is itself a pointer (pointee 3 can be
+        // re-targeted): the recursive accessors follow the whole chain; the Is...() predicates look one level deep only and
+        // are not compared for chains.
+        const Node *tp    = &n;
+        bool        chain = false;
+        if (n.kind == Node::Ptr) {
+            tp = &pmodel[(size_t)n.ptr];
+            if (tp->kind == Node::Ptr) {
+                chain = true;
+                tp    = &pmodel[(size_t)tp->ptr];
+            }
+        }
+        const Node &t = *tp;
         bool p_und, p_obj, p_arr, p_str, p_u, p_i, p_d, p_t, p_f, p_n, p_num;
         size_t size, len;
         {
@@ -364,10 +379,11 @@ struct ValW {
             size = v->Size();
             len  = v->Length();
         }
-        if (p_und != (t.kind == Node::Undefined) || p_obj != (t.kind == Node::Object) || p_arr != (t.kind == Node::Array) ||
+        if (!chain &&
+            (p_und != (t.kind == Node::Undefined) || p_obj != (t.kind == Node::Object) || p_arr != (t.kind == Node::Array) ||
             p_str != (t.kind == Node::String) || p_u != (t.kind == Node::UInt) || p_i != (t.kind == Node::Int) ||
             p_d != (t.kind == Node::Double) || p_t != (t.kind == Node::True) || p_f != (t.kind == Node::False) ||
-            p_n != (t.kind == Node::Null) || p_num != (t.kind == Node::UInt || t.kind == Node::Int || t.kind == Node::Double)) {
+            p_n != (t.kind == Node::Null) || p_num != (t.kind == Node::UInt || t.kind == Node::Int || t.kind == Node::Double))) {
             cx.fail("model", "predicates", path + ": Is...() predicates disagree with the model kind");
             return;
         }
@@ -1148,6 +1164,26 @@ struct ValW {
                 pn.ptr  = pi;
                 m_append(*n, pn);
                 qsim::probe("value.pointer");
+                break;
+            }
+            case V_POINTEE_UPDATE: {
+                // pointee 3 is a value the harness may change while pointers to it exist: a pointer is an alias, every
+                // read through it has to see the pointee as it is NOW (also when the pointee is itself a pointer)
+                VT &p3 = *ptee[3];
+                LibCall lc;
+                switch (var % 4) {
+                    case 0: p3 = (SizeT64)tok; pmodel[3] = Node::mku(tok); break;
+                    case 1: {
+                        int k3 = (int)(tok % 3);
+                        p3.SetPointerToValue(ptee[k3].p);
+                        pmodel[3]     = Node::mk(Node::Ptr);
+                        pmodel[3].ptr = k3;
+                        qsim::probe("value.pointer-chain");
+                        break;
+                    }
+                    case 2: p3 = true; pmodel[3] = Node::mk(Node::True); break;
+                    default: p3 = -(SizeT64I)(tok & 0xFFFF); pmodel[3] = Node::mki(-(int64_t)(tok & 0xFFFF)); break;
+                }
                 break;
             }
             case V_ASSIGN_TYPE: {
